@@ -1,4 +1,4 @@
-use std::collections::VecDeque;
+use std::collections::{HashSet, VecDeque};
 use anyhow::{anyhow, bail, Context, Result};
 use std::fmt::{Debug, Display, Formatter};
 use std::hash::{Hash, Hasher};
@@ -303,30 +303,41 @@ impl VersionGraph {
 			.with_context(|| anyhow!("failed to parse version mapping from {root_path:?}"))?
 			.contract_inner_class_names("named")?;
 
-		let mut walkers: VecDeque<_> = [ (Vec::new(), root) ].into();
-		while let Some((path, head)) = walkers.pop_front() {
+		// The depth of a node is the length of the shortest way from the root to it. A breadth first walk reaches every
+		// node first on a shortest way. (Walking all the ways instead takes time exponential in the number of versions that
+		// can be reached on two ways.)
+		let mut seen: HashSet<_> = [ root ].into();
+		let mut walkers: VecDeque<_> = [ (0, root) ].into();
+		while let Some((depth, head)) = walkers.pop_front() {
 			if head != root {
-				if graph[head].depth == 0 {
-					graph[head].depth = path.len();
-				} else {
-					// we got two (or more) depths for a node:
-					let old_depth = graph[head].depth;
-					let new_depth = path.len();
-
-					graph[head].depth = new_depth.min(old_depth);
-				}
-				// since all nodes are connected, after this all of them will have their depth with them
+				graph[head].depth = depth;
 			}
+			// since all nodes are connected, after this all of them will have their depth with them
 
 			for v in graph.neighbors_directed(head, Direction::Outgoing) {
-				if path.contains(&v) {
+				if seen.insert(v) {
+					walkers.push_back((depth + 1, v));
+				}
+			}
+		}
+
+		// Look for loops, depth first: a loop is an edge to a node we're still below of.
+		let mut below: HashSet<_> = [ root ].into();
+		let mut done = HashSet::new();
+		let mut stack = vec![ (root, graph.neighbors_directed(root, Direction::Outgoing).collect::<Vec<_>>()) ];
+		while let Some((head, todo)) = stack.last_mut() {
+			if let Some(v) = todo.pop() {
+				if below.contains(&v) {
 					bail!("found a loop in the version graph: {:?}", v);
 				}
-
-				let mut path = path.clone();
-				path.push(v);
-
-				walkers.push_back((path, v));
+				if !done.contains(&v) {
+					below.insert(v);
+					stack.push((v, graph.neighbors_directed(v, Direction::Outgoing).collect()));
+				}
+			} else {
+				below.remove(head);
+				done.insert(*head);
+				stack.pop();
 			}
 		}
 
